@@ -37,7 +37,6 @@ func c17ResetSpecs() []resetSpec {
 			"ColumnWriter.encodings":                              "the fallback adds PLAIN, which the constructor already records for every dictionary column (addEncoding is idempotent)",
 			"ColumnWriter.header":                                 headerWhy,
 			"ColumnWriter.originalColumnBuffer":                   "cache of the buffer created at first use: a function of the column configuration, its content is reset through columnBuffer",
-			"ColumnWriter.plainColumnBuffer":                      "lazily created PLAIN buffer: a function of the column configuration, drained by Flush before the row group ends",
 		}},
 		{Type: "ConcurrentRowGroupWriter", Reset: []string{"(*writer).reset"}, Constructors: writerCtors, Exempt: map[string]string{
 			"ConcurrentRowGroupWriter.columnIndex": "scratch: element i is assigned from the indexer or the copied chunk for every column of every row group before it is published",
@@ -66,7 +65,9 @@ func c17ResetSpecs() []resetSpec {
 			"GenericBuffer.base.rowbuf": "scratch of the embedded Buffer (see Buffer.rowbuf)",
 			"GenericBuffer.base.colbuf": "scratch of the embedded Buffer (see Buffer.colbuf)",
 		}},
-		{Type: "RowBuffer", Reset: []string{"(*RowBuffer).Reset"}},
+		{Type: "RowBuffer", Reset: []string{"(*RowBuffer).Reset"}, Exempt: map[string]string{
+			"RowBuffer.schema": "the schema is configuration shared with the caller; what operations write below it are its sync.Once-guarded caches, functions of the schema alone",
+		}},
 		{Type: "writerBuffers", Reset: []string{"(*writerBuffers).reset"}, Exempt: map[string]string{
 			"writerBuffers.scratch": "scratch: always truncated (dst[:0]) by the compressor before it is filled",
 		}},
@@ -121,8 +122,40 @@ func runC17(c *Ctx) {
 			}
 		}
 	}
+	nested := map[*types.Var]*nestedSpec{}
+	for _, s := range specs {
+		n := p.LookupType(s.Type)
+		if n == nil {
+			continue
+		}
+		ns := &nestedSpec{Type: s.Type, Resets: map[string]bool{}, Cover: newChainSet(p)}
+		var entries []*ssa.Function
+		for _, k := range s.Reset {
+			if f := p.LookupFunc(k); f != nil {
+				if sf := p.SSAFunc(f); sf != nil && sf.Blocks != nil {
+					entries = append(entries, sf)
+					ns.Resets[baseFuncKey(sf)] = true
+				}
+			}
+		}
+		heads := fieldsOfStruct(n)
+		raw, _ := ResetCover(p, entries, 7)
+		for _, w := range raw.m {
+			for k := range w.Chain {
+				if heads[w.Chain[k]] {
+					ns.Cover.add(chainWrite{Chain: w.Chain[k:], Kind: w.Kind, Pos: w.Pos, Fn: w.Fn})
+				}
+			}
+		}
+		for f := range heads {
+			if nested[f] == nil {
+				nested[f] = ns
+			}
+		}
+	}
 	for _, s := range specs {
 		s.Boundary = boundary
+		s.Nested = nested
 		runResetRule(c, "C17.reset", ci, s)
 	}
 	c.Min("C17.reset", 60)
@@ -136,6 +169,7 @@ func runC17(c *Ctx) {
 	runScratchRule(c, "C17.scratch", "ConcurrentRowGroupWriter", "values")
 	runScratchRule(c, "C17.scratch", "dedupe", "uniq")
 	runScratchRule(c, "C17.scratch", "dedupe", "dupe")
+	runScratchRule(c, "C17.scratch", "Buffer", "colbuf")
 	c.Min("C17.scratch", 3)
 
 	c17Nondet(c)
